@@ -97,9 +97,12 @@ class Accept:
     closed range), a str or bytes.  integral: the result type is an integer type, i.e. the result must be an
     integer nearest to (one of) the exact alternative(s); both neighbours are accepted at exact ties."""
 
-    def __init__(self, alts: Sequence[Any], integral: bool = False) -> None:
+    def __init__(self, alts: Sequence[Any], integral: bool = False, abs_tol: Any = 0) -> None:
         self.alts = list(alts)
         self.integral = integral
+        # additional absolute tolerance of an ill-conditioned double precision evaluation (cancellation), see
+        # RefCompu.p2i_tolerance
+        self.abs_tol = abs_tol
 
     def __repr__(self) -> str:
         def s(a: Any) -> str:
@@ -127,10 +130,10 @@ class Accept:
             if self.integral:
                 if g.denominator != 1:
                     continue
-                if lo - HALF <= g <= hi + HALF or (not exact and lo - HALF - _tol(lo) <= g <= hi + HALF + _tol(hi)):
+                if lo - HALF <= g <= hi + HALF or (not exact and lo - HALF - _tol(lo) - self.abs_tol <= g <= hi + HALF + _tol(hi) + self.abs_tol):
                     return True
             else:
-                if lo <= g <= hi or (not exact and lo - _tol(lo) <= g <= hi + _tol(hi)):
+                if lo <= g <= hi or (not exact and lo - _tol(lo) - self.abs_tol <= g <= hi + _tol(hi) + self.abs_tol):
                     return True
         return False
 
@@ -760,6 +763,14 @@ class RefCompu:
             return True
         return None
 
+    def p2i_tolerance(self, p: Any) -> F:
+        """Absolute error a double precision evaluation of (p*d0 - n0)/n1 may show because of cancellation: 1e-13 (about
+        450 ulp) of the magnitude of the intermediate terms, divided by |n1|; the largest over the linear pieces."""
+        if not self.pieces or not is_num(p):
+            return F(0)
+        P = F(p)
+        return max([F(1, 10**13) * (abs(P * pc.d0) + abs(pc.n0)) / abs(pc.n1) for pc in self.pieces if pc.n1 != 0] or [F(0)])
+
     def phys_to_int_accept(self, p: Any) -> Union[Accept, _Sentinel]:
         """The admissible results of converting p (only meaningful for values that are declared valid)."""
         cat = self.cat
@@ -801,7 +812,7 @@ class RefCompu:
                     alts.append(pc.inv)
                 else:
                     return DONT_CARE
-            return Accept(alts, self.i_int) if alts else INVALID
+            return Accept(alts, self.i_int, self.p2i_tolerance(p)) if alts else INVALID
         if cat == "TAB-INTP":
             alts = []
             for (x0, y0), (x1, y1) in zip(self.points, self.points[1:]):
